@@ -104,7 +104,7 @@ def examine(chk, name, start, prods, tags, tier, stats):
         stats["tags"][t] = stats["tags"].get(t, 0) + 1
     gtext = "start %s; " % start + "; ".join(str(p) for p in prods)
     oracle = cfg.Oracle(start, [(p.lhs, p.rhs) for p in prods])
-    signal.setitimer(signal.ITIMER_REAL, 60)
+    signal.setitimer(signal.ITIMER_REAL, 300)
     try:
         parser, g, exc = build_real(start, prods)
         if exc is not None:
@@ -143,7 +143,22 @@ def examine(chk, name, start, prods, tags, tier, stats):
         extra = []
         if oracle.terminals:
             t0 = oracle.terminals[0]
-            extra = [(start,), (t0, start), (lr1.START_PRIME,), (t0, lr1.START_PRIME)]
+            extra = [(start,), (t0, start), (lr1.START_PRIME,), (t0, lr1.START_PRIME),
+                     (lr1.END_OF_INPUT,), (t0, lr1.END_OF_INPUT, t0)]
+            short = [w for w in strings if truth[w] is None][:2]
+            extra += [w + (lr1.END_OF_INPUT, t0) for w in short]      # `$` symbol inside the list
+        # longer sampled sentences and their one-token mutations (accept paths beyond the bound)
+        rs = common.rng("C08-sent-" + gtext)
+        sampled = set()
+        for _ in range(12 if tier == "quick" else 30):
+            sw = oracle.sample_sentence(rs, 12)
+            if sw is None or len(sw) <= L:
+                continue
+            i = rs.randrange(len(sw))
+            sampled.update([sw, sw[:i] + sw[i + 1:], sw[:i] + (rs.choice(alphabet),) + sw[i:],
+                            sw[:i] + (rs.choice(alphabet),) + sw[i + 1:]])
+        stats["sampled_long"] = stats.get("sampled_long", 0) + len(sampled)
+        extra += sorted(sampled)
         for w in strings + extra:
             toks = lr1dump.make_tokens(w)
             line, res, pexc = lr1dump.real_parse(parser, toks, sym, code)
@@ -158,7 +173,8 @@ def examine(chk, name, start, prods, tags, tier, stats):
             elif res.error is None:
                 stats["accepted"] += 1
                 if want is not None:
-                    case.bad.append((w, "accepted, but not a sentence", None))
+                    case.bad.append((w, "accepted, but not a sentence",
+                                     EOI_KEY if lr1.END_OF_INPUT in w else None))
                 else:
                     index_of = dict((id(t), i) for i, t in enumerate(toks))
                     try:
@@ -186,7 +202,7 @@ def examine(chk, name, start, prods, tags, tier, stats):
         chk.nontrivial("free:" + gtext)
         return case
     except Alarm:
-        chk.violation("input", {"input": gtext, "observed": "no result within 60 s",
+        chk.violation("input", {"input": gtext, "observed": "no result within 300 s",
                                 "expected": "termination"}, key="timeout:" + name)
         return None
     finally:
@@ -466,7 +482,7 @@ def run(tier):
     model_ok = common.proof_gate(chk, search)
     stats = new_stats()
     pinned(chk)
-    n = 150 if tier == "quick" else 1000
+    n = 150 if tier == "quick" else 2500
     cases = all_cases(chk, tier, stats, n, "C08")
     cases += emboss_cases(chk, tier, stats, model_ok)
     for c in cases:
